@@ -66,7 +66,7 @@ var c06Contract = []chainReq{
 	{"every enum is a named object", "AnonymousEnumToExplicitType", []string{"DisjunctionOfConstantsToEnum"}, []string{"golang", "java", "php"}},
 	{"every struct (outside allOf) is a named object", "AnonymousStructsToNamed", nil, []string{"golang", "java", "php", "python"}},
 	{"every non-required field is nullable", "NotRequiredFieldAsNullableType", []string{"AnonymousStructsToNamed"}, []string{"golang", "java", "php", "python"}},
-	{"no two-branch `T | null` union remains", "DisjunctionWithNullToOptional", nil, []string{"golang", "java", "php", "python"}},
+	{"no two-branch `T | null` union remains", "DisjunctionWithNullToOptional", []string{"FlattenDisjunctions"}, []string{"golang", "java", "php", "python"}},
 	{"enum member names are prefixed", "PrefixEnumValues", []string{"AnonymousEnumToExplicitType", "DisjunctionOfConstantsToEnum"}, []string{"golang"}},
 	{"enum member names are never purely numeric", "RenameNumericEnumValues", []string{"DisjunctionOfConstantsToEnum", "AnonymousEnumToExplicitType"}, []string{"python", "typescript"}},
 	{"enum member names are sanitised", "SanitizeEnumMemberNames", []string{"DisjunctionOfConstantsToEnum"}, []string{"php"}},
@@ -80,13 +80,15 @@ func checkC06(ctx *Ctx, r *Report) {
 	chains := languageChains(ctx)
 	r.Count("language chains resolved", len(chains))
 	r.Floor("language chains resolved", 7)
+	// a pass can occur several times: what counts is its last run
 	index := func(chain []string, name string) int {
+		at := -1
 		for i, n := range chain {
 			if n == name {
-				return i
+				at = i
 			}
 		}
-		return -1
+		return at
 	}
 	langs := make([]string, 0, len(chains))
 	for l := range chains {
@@ -128,6 +130,8 @@ func checkC06(ctx *Ctx, r *Report) {
 	c06Reach(ctx, r)
 	c05Visitor(ctx, r)
 	c06NullableCarried(ctx, r, chains)
+	c06FieldRetypeCarries(ctx, r, chains)
+	c06NumericNameTest(ctx, r)
 	c06NameDecisions(ctx, r)
 	c06NullUnionBothOrders(ctx, r)
 	c06NullableGuardExact(ctx, r)
@@ -545,9 +549,16 @@ func c06NullableCarried(ctx *Ctx, r *Report, chains map[string][]string) {
 						}
 					}
 				}
+				// `t, err := visitor.VisitType(schema, fresh)`
+				if as, ok := n.(*ast.AssignStmt); ok && as.Tok == token.DEFINE && len(as.Lhs) == 2 && len(as.Rhs) == 1 {
+					if id, ok := as.Lhs[0].(*ast.Ident); ok {
+						defs[info.Defs[id]] = as.Rhs[0]
+					}
+				}
 				return true
 			})
-			isFreshType := func(e ast.Expr) bool {
+			var isFreshType func(e ast.Expr) bool
+			isFreshType = func(e ast.Expr) bool {
 				c, ok := ast.Unparen(e).(*ast.CallExpr)
 				if !ok {
 					return false
@@ -555,6 +566,14 @@ func c06NullableCarried(ctx *Ctx, r *Report, chains map[string][]string) {
 				fn := callee(info, c)
 				if fn == nil || fn.Pkg() == nil {
 					return false
+				}
+				// what the visitor makes of a fresh type is as fresh as that type
+				if strings.HasPrefix(fn.Name(), "Visit") && fn.Pkg() == pkg.Types {
+					for _, a := range c.Args {
+						if namedOf(info.TypeOf(a)) == typeT && isFreshType(a) {
+							return true
+						}
+					}
 				}
 				if fn.Pkg().Path() == astPkgPath && fn.Type().(*types.Signature).Recv() == nil && namedOf(fn.Type().(*types.Signature).Results().At(0).Type()) == typeT {
 					return true // ast.NewRef, ast.NewScalar, ast.Any, ast.String, ...
@@ -1230,4 +1249,164 @@ func c06EliminatorTotal(ctx *Ctx, r *Report) {
 	r.Floor("exits of DisjunctionToType.processDisjunction", 3)
 	r.Check(bad == "", "normalform/eliminator-total", "DisjunctionToType.processDisjunction never returns the union", at, "every successful exit returns a scalar, a reference or an error",
 		"DisjunctionToType.processDisjunction has the exit `"+bad+"`: the union it was given stays in the IR — for Go and Java 'no union type remains' no longer holds (a single-branch anyOf / oneOf is enough)")
+}
+
+// c06FieldRetypeCarries: in the passes that run after NotRequiredFieldAsNullableType, a struct field whose type is
+// replaced in place (`….Fields[i].Type = E`) keeps what the earlier passes established on it: E is produced from the
+// old type by a method of the pass (judged by traverse/nullable-carried), or E's Nullable and Default are assigned
+// from the old type before the store. A field rebuilt with ast.NewStructField in place of the ranged one loses its
+// Required flag as well.
+func c06FieldRetypeCarries(ctx *Ctx, r *Report, chains map[string][]string) {
+	pkg := ctx.Pkg("internal/ast/compiler")
+	if pkg == nil {
+		r.Undecided("anchor lost: internal/ast/compiler")
+		return
+	}
+	info := pkg.TypesInfo
+	later := map[string]bool{}
+	for _, l := range []string{"golang", "java", "php", "python"} {
+		seen := false
+		for _, n := range chains[l] {
+			if seen {
+				later[n] = true
+			}
+			if n == "NotRequiredFieldAsNullableType" {
+				seen = true
+			}
+		}
+	}
+	eng := newEffectsEngine(ctx)
+	sites := 0
+	for _, p := range allPasses(ctx, eng) {
+		if !later[p.named.Obj().Name()] {
+			continue
+		}
+		for _, fd := range methodsOf(ctx, p.named) {
+			fobj, _ := info.Defs[fd.Name].(*types.Func)
+			seen := map[string]int{}
+			ast.Inspect(fd.Body, func(n ast.Node) bool {
+				as, ok := n.(*ast.AssignStmt)
+				if !ok || len(as.Lhs) != 1 || len(as.Rhs) != 1 {
+					return true
+				}
+				lhs := ast.Unparen(as.Lhs[0])
+				fieldsIndex := func(e ast.Expr) bool {
+					ix, ok := ast.Unparen(e).(*ast.IndexExpr)
+					if !ok {
+						return false
+					}
+					f := fieldOf(info, ix.X)
+					return f != nil && f.Name() == "Fields"
+				}
+				kind := ""
+				if sel, ok := lhs.(*ast.SelectorExpr); ok && sel.Sel.Name == "Type" && fieldsIndex(sel.X) {
+					kind = "type"
+				} else if fieldsIndex(lhs) {
+					if c, ok := ast.Unparen(as.Rhs[0]).(*ast.CallExpr); ok {
+						if fn := callee(info, c); fn != nil && fn.Name() == "NewStructField" {
+							kind = "field"
+						}
+					}
+				}
+				if kind == "" {
+					return true
+				}
+				sites++
+				key := ctx.FuncName(fobj) + " replaces " + exprString(lhs)
+				seen[key]++
+				cons := key
+				if seen[key] > 1 {
+					cons = fmt.Sprintf("%s #%d", key, seen[key])
+				}
+				if kind == "field" {
+					keeps := strings.Contains(exprString(as.Rhs[0]), "Required")
+					r.Check(keeps, "traverse/retyped-field-keeps-flags", cons, as.Pos(), "the rebuilt field is given the Required flag of the old one",
+						"the field is rebuilt with ast.NewStructField in place of the one being visited: Required, Type.Nullable, Type.Default and the field's trail are those of a brand-new field — a non-required field made nullable earlier in the chain stops being nullable, a required one becomes optional")
+					return true
+				}
+				rhs := ast.Unparen(as.Rhs[0])
+				why := ""
+				if c, ok := rhs.(*ast.CallExpr); ok {
+					if fn := callee(info, c); fn != nil {
+						if sig, _ := fn.Type().(*types.Signature); sig != nil && sig.Recv() != nil && namedOf(sig.Recv().Type()) == p.named {
+							why = "produced from the old type by " + fn.Name() + " (its replacements are judged by traverse/nullable-carried)"
+						}
+						if fn.Name() == "DeepCopy" {
+							why = "a copy of a whole type given by the configuration"
+						}
+					}
+				}
+				if id, ok := rhs.(*ast.Ident); ok && why == "" {
+					obj := objOf(info, id)
+					nullable, deflt := false, false
+					ast.Inspect(fd.Body, func(k ast.Node) bool {
+						a2, ok := k.(*ast.AssignStmt)
+						if !ok || len(a2.Lhs) != 1 || len(a2.Rhs) != 1 {
+							return true
+						}
+						s, ok := ast.Unparen(a2.Lhs[0]).(*ast.SelectorExpr)
+						if !ok || !isIdentOf(info, s.X, obj) {
+							return true
+						}
+						src := exprString(a2.Rhs[0])
+						if s.Sel.Name == "Nullable" && strings.HasSuffix(src, ".Nullable") {
+							nullable = true
+						}
+						if s.Sel.Name == "Default" && strings.HasSuffix(src, ".Default") {
+							deflt = true
+						}
+						return true
+					})
+					if nullable && deflt {
+						why = "Nullable and Default are copied onto the new type before the store"
+					}
+				}
+				r.Check(why != "", "traverse/retyped-field-keeps-flags", cons, as.Pos(), why,
+					"the type of the field is replaced by "+exprString(rhs)+" without the Nullable flag and the Default of the old type: a non-required field made nullable earlier in the chain stops being nullable when this rewrite applies")
+				return true
+			})
+		}
+	}
+	r.Count("in-place field replacements in passes after NotRequiredFieldAsNullableType", sites)
+	r.Floor("in-place field replacements in passes after NotRequiredFieldAsNullableType", 1)
+}
+
+// c06NumericNameTest: "enum member names are never purely numeric" — the pass decides what a numeric name is. A test
+// through an integer parser (Atoi, ParseInt, ParseUint) leaves `1.0`, `0.5`, `1e3` and integers beyond the word size
+// untouched; the decision must go through ParseFloat (or not parse at all).
+func c06NumericNameTest(ctx *Ctx, r *Report) {
+	nt := ctx.LookupType("internal/ast/compiler", "RenameNumericEnumValues")
+	if nt == nil {
+		r.Undecided("anchor lost: RenameNumericEnumValues")
+		return
+	}
+	p := ctx.Pkg("internal/ast/compiler")
+	info := p.TypesInfo
+	parsers := 0
+	bad := ""
+	var at token.Pos
+	for _, fd := range methodsOf(ctx, nt) {
+		ast.Inspect(fd.Body, func(n ast.Node) bool {
+			c, ok := n.(*ast.CallExpr)
+			if !ok {
+				return true
+			}
+			fn := callee(info, c)
+			if fn == nil || fn.Pkg() == nil || fn.Pkg().Path() != "strconv" {
+				return true
+			}
+			parsers++
+			switch fn.Name() {
+			case "Atoi", "ParseInt", "ParseUint":
+				bad = "strconv." + fn.Name()
+				at = c.Pos()
+			}
+			return true
+		})
+	}
+	r.Count("number parsers consulted by RenameNumericEnumValues", parsers)
+	r.Floor("number parsers consulted by RenameNumericEnumValues", 1)
+	r.Check(bad == "", "normalform/numeric-name-test", "RenameNumericEnumValues recognises every number literal", at,
+		"no integer-only parser decides what a numeric name is",
+		"the pass decides that a member name is numeric with "+bad+": names such as 1.0, 0.5 or 99999999999999999999 are not integers of the word size and stay purely numeric — Python gets `1.0 = \"1.0\"` (SyntaxError), TypeScript `enum V { 10 = \"1.0\" }`")
 }
